@@ -134,6 +134,9 @@ type Transform struct {
 	Type uint8  `json:"type"`
 	ID   uint16 `json:"id"`
 	Attr *Attr  `json:"attr,omitempty"`
+	// FiledUnder is set (by the bridge, when reading a library proposal) only if the transform sits in the container of
+	// another transform type than its own TransformType field says - which a correct decoder never produces.
+	FiledUnder uint8 `json:"filed_under,omitempty"`
 }
 
 type Attr struct {
@@ -270,7 +273,7 @@ func (p Payload) Normalize() Payload {
 					if int(tr.Type) != ty {
 						continue
 					}
-					nt := Transform{Type: tr.Type, ID: tr.ID}
+					nt := Transform{Type: tr.Type, ID: tr.ID, FiledUnder: tr.FiledUnder}
 					if tr.Attr != nil {
 						// both Value and Var are kept whatever the format: a decoder that leaves something in the
 						// field the format does not use is observable through the exported struct fields
